@@ -2,7 +2,7 @@
    ExtrOcamlBasic only: bool, option, unit, list, prod, sumbool map to OCaml's;
    nat, positive, N, Z stay inductive.  No Extract Constant. *)
 From Coq Require Import Extraction ExtrOcamlBasic.
-From JP Require Import Base Json PyStr Fluent ListSpec Pointer RelPointer Rfc6901 RelPtrDraft PointerDomain.
+From JP Require Import Base Json PyStr Fluent ListSpec Pointer RelPointer Patch Rfc6901 RelPtrDraft PointerDomain Rfc6902 Edit.
 Extraction Language OCaml.
 Extraction "extract/model.ml"
   Fluent.observe ListSpec.sobserve
@@ -14,4 +14,6 @@ Extraction "extract/model.ml"
   Rfc6901.rfc6901_syntax Rfc6901.rfc_tokens Rfc6901.rfc_spell Rfc6901.rfc_eval Rfc6901.spell_loc Rfc6901.rfc_step
   RelPtrDraft.draft_parse RelPtrDraft.draft_apply RelPtrDraft.offset_applicable
   PointerDomain.no_backslash PointerDomain.outside_extensions PointerDomain.tokens_within_limits
-  PointerDomain.no_leading_blank.
+  PointerDomain.no_leading_blank
+  Patch.apply Patch.apply_op Patch.build Patch.asdicts Patch.translate
+  Rfc6902.rfc_apply Rfc6902.rfc_op Edit.replace_at Edit.delete_at Edit.doc_addne Edit.doc_addap Pointer.of_loc.
